@@ -146,7 +146,7 @@ CLAIMS['C06'] = dict(
 CLAIMS['C12'] = dict(
     level='proof',
     text=('All 12 signed integer printers (from_int cores, ST::format\'s numeric renderer, string_stream <<) are interpreted with the value '
-          'free over its whole type: the term handed to uint_formatter::format equals |value| on every path (a path that renders without the '
+          'free over its whole type: the term handed to the digit generator (uint_formatter::format, or any function recognised by its divide-by-radix loop) equals |value| in the generator's own width on every path, a caller that passes a position inside its own buffer leaves room for one unit per bit of the magnitude (a path that renders without the '
           'digit generator may not have written fewer characters than the value needs in the radix), no signed operation on the '
           'way can overflow (witness: the most negative value) and no abs() family call exists; the digit loop of every uint_formatter<U> '
           'is summarised per iteration (value := value / radix, one unit stored backwards, from index digits of a digits+1 buffer) which '
@@ -209,7 +209,7 @@ CLAIMS['C07'] = dict(
           'scan cores (find_cs / find_ci) and the backward cores (_find_last, find_last(max,char)) are summarised per iteration by abstract '
           'interpretation with the character search and the prefix comparison as symbols: a candidate is compared only when it fits and given '
           'up for not fitting only when it does not, the comparison is (candidate, needle, |needle|), the scan resumes exactly one unit after a '
-          'rejected candidate, a non-null result is a position whose comparison returned 0, the backward window is [cursor, min(max,size)). '
+          'rejected candidate, a non-null result is a position whose comparison returned 0, the backward window is [cursor, min(max,size)), and a comparison made directly on the text by a written-out backward scan covers a range inside the text and its terminator (model otherwise). '
           'The 23 find / find_last front ends are interpreted with start / max / lengths free over 64 bits: they search exactly '
           '(c_str()+start, size()-start) with start < size and a needle of length >= 1, return match - c_str() or -1, and return -1 without '
           'searching only for an empty / null needle or start >= size; contains == (find >= 0); starts_with / ends_with compare exactly |x| '
